@@ -22,6 +22,12 @@ CHECKS = {
         note="Bounded pattern pool and path depth; the manual's ambiguities are listed in the evidence assumptions and accepted both ways."),
 }
 
+CHECKS["C13"] = dict(
+    cat="model_checking", design="4.3, 6/C13",
+    technique="IoRing.tla (one action per critical section of io.c) checked by TLC incl. termination under fairness; H1 traces of real sync/scrub runs under seeded schedule perturbation validated against IoRingTrace.tla; byte-level determinism comparison across cache depths",
+    text="TLC explores all interleavings of caller, reader and writer threads over the slot ring for small sizes (ownership, once-in-order, determinism, absence of deadlock, termination under weak fairness, both signalling disciplines, mono mode); every real run's slot hand-over trace (hook H1, events taken under io_mutex) must be a behaviour of the specification, and parity/content/errors must be identical across cache depths 1..128 and yield seeds.",
+    note="Small ring sizes in the model; wake-ups are not observable in traces (covered by liveness on the model and hang detection on real runs); writer-error accounting is excluded (defects F3/F4, see C08).")
+
 ARRAY_NOTE = ("Abstractions of Array.tla: hash injective on the block values used, parity as encoded vector (MDS, discharged by C03), "
               "one content copy observed for the state (copy equality checked separately), scenarios without usable inodes; "
               "random 1 KiB blocks make collisions negligible.")
@@ -88,7 +94,7 @@ def main():
                 "thorough_cmd": "./verif check %s thorough" % i,
                 "evidence_file": "/verif/evidence/%s.json" % i,
                 "replay_cmd_template": "./verif replay {path}",
-                "engine": "tlc-array" if i in ("C01", "C04", "C05", "C06", "C12") else "tlc-pure",
+                "engine": "tlc-array" if i in ("C01", "C04", "C05", "C06", "C07", "C08", "C11", "C12", "C14", "C19", "C20") else ("tlc-ioring" if i == "C13" else "tlc-pure"),
                 "level_claimed": {"category": c["cat"], "text": c["text"], "design_ref": "DESIGN.md section " + c["design"]},
                 "level_note": c["note"],
                 "technique": c["technique"],
